@@ -1,7 +1,8 @@
+\* C15 exhaustive configuration (quick): I = 2T, tick = T/4; tools/props/c15.py generates the same file per interval
 SPECIFICATION Spec
 CONSTANTS
   TT = 4
-  NI = 4
+  NI = 8
   Delays = {0, 2, 3, 4, 5}
   Delays2 = {0, 3, 5}
   LateAt = {1, 2, 3, 4}
